@@ -157,9 +157,9 @@ def enumerate_obligations(unit, woven, items):
         counters = {}
 
         def nid(kind, label):
+            counters[kind] = counters.get(kind, 0) + 1
             if label:
                 return '%s/%s/%s' % (unit, name, label)
-            counters[kind] = counters.get(kind, 0) + 1
             return '%s/%s/%s#%d' % (unit, name, kind, counters[kind])
         has_ghost = False
         for g in re.finditer(r'/\*G<([HS])\*/(.*?)/\*>G\*/', region, re.S):
@@ -288,24 +288,31 @@ def map_failures(vf, obligations):
     """map each verification failure to the most specific obligation(s)"""
     failed = {}
     for e in vf:
-        lines = [s[0] for s in e['spans']]
+        all_lines = [s[0] for s in e['spans']]
         best = None
-        # prefer explicit (non-safety) obligations whose line range contains a span line
-        for ob in obligations:
-            if ob['kind'] in ('safety', 'lemma'):
-                continue
-            if any(ob['line_a'] <= l <= ob['line_b'] for l in lines):
-                if best is None or (ob['line_b'] - ob['line_a']) < (best['line_b'] - best['line_a']):
-                    best = ob
+        # the primary span (`-->`) first; secondary label lines only if the primary maps to nothing explicit
+        for lines in ([all_lines[:1]] if all_lines else []) + [all_lines]:
+            for ob in obligations:
+                if ob['kind'] in ('safety', 'lemma'):
+                    continue
+                if any(ob['line_a'] <= l <= ob['line_b'] for l in lines):
+                    if best is None or (ob['line_b'] - ob['line_a']) < (best['line_b'] - best['line_a']):
+                        best = ob
+            if best is not None:
+                break
+        lines = all_lines
         if best is None:
+            in_item = None
             for ob in obligations:
-                if ob['kind'] == 'lemma' and lines and ob['line_a'] <= lines[0]:
-                    # lemma whose start precedes the error and is the closest
-                    if best is None or ob['line_a'] > best['line_a']:
-                        best = ob if not any(o2['kind'] == 'safety' and o2['line_a'] <= lines[0] <= o2['line_b'] for o2 in obligations) else best
-            for ob in obligations:
-                if ob['kind'] == 'safety' and any(ob['line_a'] <= l <= ob['line_b'] for l in lines):
-                    best = ob
+                if ob['kind'] == 'safety' and lines and ob['line_a'] <= lines[0] <= ob['line_b']:
+                    in_item = ob
+            if in_item is not None:
+                best = in_item
+            else:
+                for ob in obligations:
+                    if ob['kind'] == 'lemma' and lines and ob['line_a'] <= lines[0]:
+                        if best is None or ob['line_a'] > best['line_a']:
+                            best = ob
         if best is None:
             best = dict(id='?/unmapped@%s' % (lines[:1] or ['?'])[0], kind='unmapped', props=None, fn='?')
         failed.setdefault(best['id'], dict(ob=best, errors=[]))['errors'].append(e)
